@@ -68,7 +68,7 @@ func c08Case(c *core.Ctx, i int) (string, string) {
 	r := c.Rng
 	p := c.State.(*srcPool)
 	var b strings.Builder
-	switch i % 10 {
+	switch i % 11 {
 	case 0: // many unused variables in several scopes
 		for k := 0; k < 9+r.Intn(4); k++ {
 			fmt.Fprintf(&b, "unused%c%d := %d\n", 'a'+rune(r.Intn(26)), k, k)
@@ -156,11 +156,27 @@ func c08Case(c *core.Ctx, i int) (string, string) {
 		return b.String(), "map-orders"
 	case 6: // random numbers with a seed
 		b.WriteString("for i := range 12\n    print (rand 10) (rand1) (rand 1000000)\nend\n")
+		// bounds at and beyond the documented range: a value or a panic, but the same on every run
+		b.WriteString("print (rand 2147483647)\n")
+		b.WriteString("print (rand " + []string{"2147483648", "3000000000", "9007199254740992", "4294967296"}[r.Intn(4)] + ")\n")
 		return b.String(), "rand-seeded"
+	case 9: // formatted output of composites under every verb: text must not depend on the run (no addresses)
+		b.WriteString("arr := [1 2 3]\nm := {a:1 b:2}\nx:any\nx = [[1] [2]]\nn := [\"s\"]\n")
+		verbs := []string{"%v", "%s", "%q", "%d", "%o", "%b", "%g", "%x", "%X", "%e", "%f", "%t", "%c", "%U", "%5v", "%-8s|", "%+d", "%08.3f"}
+		r.Shuffle(len(verbs), func(a, b int) { verbs[a], verbs[b] = verbs[b], verbs[a] })
+		v := verbs[0]
+		arg := []string{"arr", "m", "x", "n", "[arr]", "{k:m}"}[r.Intn(6)]
+		if r.Intn(2) == 0 {
+			b.WriteString("printf \"" + v + "\\n\" " + arg + "\n")
+		} else {
+			b.WriteString("print (sprintf \"" + v + " " + verbs[1] + "\" " + arg + " arr)\n")
+		}
+		b.WriteString("test 1 2 \"" + v + "\" " + arg + "\n")
+		return b.String(), "format-composites"
 	case 7: // several handlers and test summary
 		b.WriteString("n := 0\non key k:string\n    n = n + 1\n    print \"key\" k n\nend\non down x:num y:num\n    print \"down\" x y\nend\non animate t:num\n    print \"anim\" t\nend\non input id:string val:string\n    print id val\nend\ntest 1 n\ntest 0 n\ntest true\n")
 		return b.String(), "handlers-tests"
-	case 8: // generated program
+	case 10: // generated program
 		prog := hostileProgram(r)
 		return gen.Print(prog, nil), "generated"
 	default: // corpus mutant (accepted or rejected)
